@@ -77,6 +77,8 @@ Section LockFacts.
   Notation serial_data := (Lock.serial_data oid data oid_eqb).
   Notation serial_run := (Lock.serial_run oid data oid_eqb).
   Notation all_finished := (Lock.all_finished oid key data).
+  Notation running_at := (Lock.running_at oid key data).
+  Notation reachable := (Lock.reachable oid key data oid_eqb key_eqb hash).
 
   (** ** boolean helpers *)
 
@@ -162,9 +164,6 @@ Section LockFacts.
 
   (** ** the shape of a step *)
 
-  Definition running_at (st : sys) (i : nat) (o : op) (p : prog) : Prop :=
-    nth_error (ops st) i = Some o /\ nth_error (pcs st) i = Some (Running p).
-
   Inductive step_case (st : sys) (i : nat) : sys -> Prop :=
   | SC_none : action_of st i = ANone -> step_case st i st
   | SC_acq o :
@@ -241,7 +240,7 @@ Section LockFacts.
     destruct (step_cases st i) as [E | o Eo Ep Hn | o Eo Ep Hin | o u next Eo Ep | o out Eo Ep].
     - constructor; assumption.
     - (* acquire *)
-      constructor; unfold running_at; cbn [Lock.apply_action locks store ops pcs held acq_log events].
+      constructor; unfold Lock.running_at; cbn [Lock.apply_action locks store ops pcs held acq_log events].
       + rewrite length_upd_nth. exact Ilen.
       + cbn. f_equal. exact Imap.
       + constructor; assumption.
@@ -257,7 +256,7 @@ Section LockFacts.
       + rewrite wb_run_app, Iwb. cbn. unfold Lock.wb_step. cbn [ev_kind ev_key ev_tid].
         rewrite Imap. apply mem_key_notIn in Hn. rewrite Hn. reflexivity.
     - (* failed acquire *)
-      constructor; unfold running_at; cbn [Lock.apply_action locks store ops pcs held acq_log events].
+      constructor; unfold Lock.running_at; cbn [Lock.apply_action locks store ops pcs held acq_log events].
       + rewrite length_upd_nth. exact Ilen.
       + exact Imap.
       + exact Ind.
@@ -271,7 +270,7 @@ Section LockFacts.
         rewrite Imap. apply mem_key_In in Hin. rewrite Hin. reflexivity.
     - (* data step *)
       assert (Hheld : In (hash (op_obj o), i) (held st)) by (apply (Irh i o (Step u next)); split; assumption).
-      constructor; unfold running_at; cbn [Lock.apply_action locks store ops pcs held acq_log events].
+      constructor; unfold Lock.running_at; cbn [Lock.apply_action locks store ops pcs held acq_log events].
       + rewrite length_upd_nth. exact Ilen.
       + exact Imap.
       + exact Ind.
@@ -289,7 +288,7 @@ Section LockFacts.
     - (* release *)
       assert (Hheld : In (hash (op_obj o), i) (held st)) by (apply (Irh i o (Done out)); split; assumption).
       assert (Hnd : NoDup (map fst (held st))) by (rewrite Imap; exact Ind).
-      constructor; unfold running_at; cbn [Lock.apply_action locks store ops pcs held acq_log events].
+      constructor; unfold Lock.running_at; cbn [Lock.apply_action locks store ops pcs held acq_log events].
       + rewrite length_upd_nth. exact Ilen.
       + rewrite map_fst_remove_held. rewrite Imap. reflexivity.
       + apply NoDup_remove_key. exact Ind.
@@ -313,9 +312,6 @@ Section LockFacts.
     revert st. induction sched as [|i s IH]; intros st I; cbn; auto.
     apply IH. apply inv_step. exact I.
   Qed.
-
-  Definition reachable (os : list op) (d0 : oid -> data) (st : sys) : Prop :=
-    exists sched, st = run_sched (init os d0) sched.
 
   Lemma inv_reachable os d0 st : reachable os d0 st -> inv st.
   Proof. intros [s ->]. apply inv_run. apply inv_init. Qed.
